@@ -634,9 +634,24 @@ pub fn masks_menu(n: usize, full_upto: usize) -> Vec<Option<Vec<bool>>> {
             }
         }
     }
-    let pats: [fn(usize, usize) -> bool; 6] = [|i, _| i % 2 == 0, |i, _| i % 2 == 1, |i, n| i < n / 2, |i, n| i >= n / 2, |i, _| i % 3 == 0, |i, _| i % 3 != 0];
+    // structured patterns: even / odd / halves / thirds, and three sparse ones (about one cell in nine; the first and the
+    // last cell only; a contiguous block of an eighth) - a small share of constructed cells, but more than one
+    let pats: [fn(usize, usize) -> bool; 9] = [
+        |i, _| i % 2 == 0,
+        |i, _| i % 2 == 1,
+        |i, n| i < n / 2,
+        |i, n| i >= n / 2,
+        |i, _| i % 3 == 0,
+        |i, _| i % 3 != 0,
+        |i, _| i % 9 == 4,
+        |i, n| i == 0 || i + 1 == n,
+        |i, n| i >= n / 2 && i < n / 2 + (n / 8).max(2),
+    ];
     for p in pats {
-        m.push(Some((0..n).map(|i| p(i, n)).collect()));
+        let mk: Vec<bool> = (0..n).map(|i| p(i, n)).collect();
+        if !m.iter().any(|x| x.as_ref() == Some(&mk)) {
+            m.push(Some(mk));
+        }
     }
     m
 }
@@ -675,8 +690,12 @@ pub fn ring_fracs(m: usize, radius: f64) -> Vec<DVec3> {
         .map(|i| {
             let t = i as f64;
             let a = 2. * std::f64::consts::PI * (t + 0.3) / m as f64 + 0.01 * (3. * t).sin();
-            let r = radius * (1. + 0.02 * (5. * t + 1.).sin());
-            v3(0.5 + r * a.cos(), 0.5 + r * a.sin(), 0.5 + 0.004 * (7. * t + 2.).sin())
+            // the jitter shrinks with 1/m^2 so that every ring generator keeps its face (a side of the m-gon disappears when
+            // its plane is pushed out by more than about rho (2 pi / m)^2 / 2); for m = 300 it is 6e-5 of the radius, still
+            // eleven orders above rounding
+            let amp = (17. / m as f64).powi(2).min(1.);
+            let r = radius * (1. + 0.02 * amp * (5. * t + 1.).sin());
+            v3(0.5 + r * a.cos(), 0.5 + r * a.sin(), 0.5 + 0.004 * amp * (7. * t + 2.).sin())
         })
         .collect()
 }
@@ -735,7 +754,7 @@ pub fn bigcell_family(thorough: bool) -> Vec<State> {
     let boxes = box_menu(false);
     // 300: more than 256 planes / faces / clips in one cell and a face with more than 256 vertices (beyond any 8-bit counter)
     let rings: &[usize] = if thorough { &[5, 12, 16, 17, 24, 32, 33, 40, 64, 65, 72, 100, 255, 256, 257, 300] } else { &[5, 17, 33, 40, 300] };
-    let shells: &[usize] = if thorough { &[20, 40, 63, 66, 70, 100, 130, 160, 250, 260, 300] } else { &[30, 70, 300] };
+    let shells: &[usize] = if thorough { &[20, 40, 63, 66, 70, 100, 130, 160, 250, 260, 280, 300, 330, 360, 400, 450, 500, 600, 700] } else { &[30, 70, 300, 350, 400, 500] };
     for (bi, b) in boxes.iter().enumerate() {
         // the cubic box and the offset box (b1 is too flat for a ring of radius 0.3 to produce the intended shapes)
         if bi == 1 {
@@ -754,6 +773,47 @@ pub fn bigcell_family(thorough: bool) -> Vec<State> {
                 continue;
             }
             out.push(bigcell_state("shell", m, b));
+        }
+    }
+    out
+}
+
+// ---------------------------------------------------------------------------------------------
+// Large states: the generator counts of ordinary use (beyond every "small input" threshold a shortcut could have)
+
+/// * `K2000`: 2000 Kronecker points filling the box;
+/// * `cluster`: a compact cluster of 1200 (thorough also 2500) Kronecker points in a sub-cube of 1/10 of the box plus six
+///   isolated generators far away (strong density contrast: the rim cells of the cluster have real neighbours after more
+///   than a thousand closer candidates that do not clip anything);
+/// reflective and periodic, 3D; thorough also 2D.
+pub fn large_states(thorough: bool) -> Vec<State> {
+    let b = box_menu(false)[0];
+    let mut out = vec![];
+    let dims: &[usize] = if thorough { &[3, 2] } else { &[3] };
+    for &dim in dims {
+        for periodic in [false, true] {
+            let uni = kronecker_points(2000, &b, dim);
+            out.push(State { id: format!("{}|b0|K2000", dim_tag(dim, periodic)), dim, periodic, anchor: b.anchor, width: b.width, gens: uni });
+            for nc in if thorough { vec![1200usize, 2500] } else { vec![1200usize] } {
+                let mut gens: Vec<DVec3> = kronecker_points(nc, &b, dim)
+                    .into_iter()
+                    .map(|p| {
+                        let mut q = b.anchor + v3(0.45, 0.45, 0.45) * b.width + (p - b.anchor) * 0.1;
+                        if dim <= 2 {
+                            q.z = p.z;
+                        }
+                        q
+                    })
+                    .collect();
+                for f in [v3(0.05, 0.07, 0.11), v3(0.93, 0.08, 0.9), v3(0.1, 0.95, 0.12), v3(0.9, 0.9, 0.07), v3(0.06, 0.5, 0.94), v3(0.95, 0.45, 0.5)] {
+                    let mut q = b.anchor + f * b.width;
+                    if dim <= 2 {
+                        q.z = GARBAGE[0];
+                    }
+                    gens.push(q);
+                }
+                out.push(State { id: format!("{}|b0|cluster{}+6", dim_tag(dim, periodic), nc), dim, periodic, anchor: b.anchor, width: b.width, gens });
+            }
         }
     }
     out
